@@ -122,7 +122,7 @@ pub fn prop(case: &Case) -> CaseResult {
     let case_id = CASE_COUNTER.fetch_add(1, Ordering::Relaxed);
     let mut conns: Vec<Conn> = Vec::new();
     let mut model = SwarmModel::default();
-    let timeout = Duration::from_secs(5);
+    let timeout = crate::e2e::reply_wait();
     let max_peers = case.spec.max_peers as usize;
     let max_scrape = case.spec.max_scrape as usize;
     let swarm_workers = case.spec.swarm_workers as usize;
@@ -146,7 +146,7 @@ pub fn prop(case: &Case) -> CaseResult {
             }
             HttpRead::Eof => Err(Violation::new("connection-closed-without-reply", format!("step {step}: connection closed without a reply to {what}"))),
             HttpRead::Malformed(m) => Err(Violation::new("reply-malformed", format!("step {step}: reply to {what} is not well-framed: {m}"))),
-            HttpRead::Timeout => Err(Violation::new("no-reply", format!("step {step}: no reply to {what} within 5 s"))),
+            HttpRead::Timeout => Err(Violation::new("no-reply", format!("step {step}: no reply to {what} within the reply wait (20 s)"))),
         }
     }
 
@@ -337,7 +337,7 @@ fn after_reply(conn: &mut Conn, keep_alive: bool, step: usize, out: &mut Outcome
         }
     } else {
         out.checks += 1;
-        if !conn.client.wait_eof(Duration::from_secs(5)) {
+        if !conn.client.wait_eof(crate::e2e::reply_wait()) {
             return Err(Violation::new("no-eof-without-keep-alive", format!("step {step}: keep_alive is off but the connection stayed open after the reply")));
         }
         conn.usable = false;
